@@ -1133,7 +1133,7 @@ def _physical_behavior_actor_symbol() -> container.Symbol:
     return symb
 
 
-@_factory()
+@_factory(needs="StickFigure")
 def _physical_behavior_human_actor_symbol() -> container.Symbol:
     return standalone_stick_figure_symbol("PhysicalBehaviorHumanActorSymbol")
 
@@ -1195,7 +1195,7 @@ def _physical_node_actor_symbol() -> container.Symbol:
     return symb
 
 
-@_factory()
+@_factory(needs="StickFigure")
 def _physical_node_human_actor_symbol() -> container.Symbol:
     return standalone_stick_figure_symbol("PhysicalNodeHumanActorSymbol")
 
